@@ -25,10 +25,12 @@ pub fn family(kind: usize, n: u64) -> Vec<u64> {
         1 => (0..n).map(|i| (i * 7919) % (n * 4 + 1)).collect(),
         2 => (0..n).map(|i| i.reverse_bits() >> 44).collect(),
         3 => (0..n).map(|i| i.wrapping_mul(0x9e3779b97f4a7c15) >> 40).collect(),
+        // every key three times, round robin: relocation chains meet further copies of the element in hand
+        5 => (0..n).map(|i| i % (n / 3).max(1)).collect(),
         _ => (0..n).map(|i| (i / 3) * 5 + (i % 3)).collect(),
     }
 }
-pub const N_FAMILIES: usize = 5;
+pub const N_FAMILIES: usize = 6;
 
 fn viol(prop: &str, sig: String, msg: String, extra: serde_json::Value) -> Viol {
     Viol { property: prop.into(), signature: sig, message: msg, replay: json!({"engine": "medium-scale deterministic differential run", "details": extra}) }
@@ -558,7 +560,7 @@ pub fn run_all(which: &[&str], thorough: bool, threads: usize) -> (MStats, Vec<V
         Cm(usize, usize, usize),
         CuSparse(usize, usize, usize),
     }
-    let fams: Vec<usize> = if thorough { (0..N_FAMILIES).collect() } else { vec![0, 3] };
+    let fams: Vec<usize> = if thorough { (0..N_FAMILIES).collect() } else { vec![0, 3, 5] };
     let mut jobs: Vec<J> = vec![];
     for &kind in &fams {
         if which.contains(&"qf") {
